@@ -537,8 +537,250 @@ def _initial_constant(repo, path):
     return False, None
 
 
+def _is_const_tree(e):
+    if isinstance(e, ast.Constant):
+        return True
+    return isinstance(e, (ast.Tuple, ast.List)) and all(_is_const_tree(x) for x in e.elts)
+
+
+class _ExprSubst(ast.NodeTransformer):
+    def __init__(self, mapping):
+        self.mapping = mapping
+
+    def visit_Name(self, n):
+        if n.id in self.mapping and isinstance(n.ctx, ast.Load):
+            import copy
+            return copy.deepcopy(self.mapping[n.id])
+        return n
+
+
+class _FoldGetattr(ast.NodeTransformer):
+    def visit_Call(self, n):
+        self.generic_visit(n)
+        if isinstance(n.func, ast.Name) and n.func.id == 'getattr' and len(n.args) == 2 and not n.keywords and \
+                astx.const_str(n.args[1]) and n.args[1].value.isidentifier():
+            return ast.copy_location(ast.Attribute(value=n.args[0], attr=n.args[1].value, ctx=ast.Load()), n)
+        return n
+
+
+def _unroll_const_loops(repo, fn):
+    """Func in which data-driven code over literal tables is written out:
+
+    * `for t in <tuple of constants>` (literal, or a local bound exactly once to such a literal, or
+      `zip(<const tuple>, <name>)`) is unrolled, the targets replaced by the constants / `<name>[i]`;
+      a leading `if c: continue` becomes `if c: pass else: <rest>`;
+    * `tuple(E for k in <const tuple>)` / list comprehension becomes the tuple display;
+    * `getattr(x, '<literal>')` becomes `x.<literal>`.
+    Returns fn itself when nothing applies.
+    """
+    import copy
+    from ..core import Func
+    cache = repo.__dict__.setdefault('_c31_unroll', {})
+    if id(fn.node) in cache:
+        return cache[id(fn.node)]
+    stores = {}
+    for x in astx.walk(fn.node):
+        if isinstance(x, ast.Name) and isinstance(x.ctx, ast.Store):
+            stores[x.id] = stores.get(x.id, 0) + 1
+    table = {}
+    for st in astx.walk_stmts(fn.node.body):
+        if isinstance(st, ast.Assign) and len(st.targets) == 1 and isinstance(st.targets[0], ast.Name) and \
+                isinstance(st.value, (ast.Tuple, ast.List)) and _is_const_tree(st.value) and st.value.elts and \
+                stores.get(st.targets[0].id) == 1:
+            table[st.targets[0].id] = st.value
+
+    def const_seq(e):
+        if isinstance(e, (ast.Tuple, ast.List)) and _is_const_tree(e) and e.elts:
+            return list(e.elts)
+        if isinstance(e, ast.Name) and e.id in table:
+            return list(table[e.id].elts)
+        return None
+
+    def elements(it):
+        """list of per-iteration value expressions (or tuples of them) for a loop iterable, else None"""
+        cs = const_seq(it)
+        if cs is not None:
+            return cs
+        if isinstance(it, ast.Call) and isinstance(it.func, ast.Name) and it.func.id == 'zip' and len(it.args) >= 2 \
+                and not it.keywords:
+            cols, n = [], None
+            for a in it.args:
+                c = const_seq(a)
+                if c is not None:
+                    n = len(c) if n is None else min(n, len(c))
+                cols.append(c)
+            if n is None or not all(c is not None or isinstance(a, ast.Name) for c, a in zip(cols, it.args)):
+                return None
+            if any(c is not None and len(c) != n for c in cols):
+                return None
+            res = []
+            for i in range(n):
+                res.append(ast.Tuple(elts=[c[i] if c is not None else
+                                           ast.Subscript(value=ast.Name(id=a.id, ctx=ast.Load()),
+                                                         slice=ast.Constant(value=i), ctx=ast.Load())
+                                           for c, a in zip(cols, it.args)], ctx=ast.Load()))
+            return res
+        return None
+
+    def bind(target, val):
+        if isinstance(target, ast.Name):
+            return {target.id: val}
+        if isinstance(target, (ast.Tuple, ast.List)) and isinstance(val, (ast.Tuple, ast.List)) and \
+                len(target.elts) == len(val.elts):
+            m = {}
+            for t, v in zip(target.elts, val.elts):
+                b = bind(t, v)
+                if b is None:
+                    return None
+                m.update(b)
+            return m
+        return None
+
+    changed = [False]
+
+    class Comp(ast.NodeTransformer):
+        def visit_Call(self, n):
+            self.generic_visit(n)
+            if isinstance(n.func, ast.Name) and n.func.id in ('tuple', 'list') and len(n.args) == 1 and \
+                    not n.keywords and isinstance(n.args[0], (ast.GeneratorExp, ast.ListComp)):
+                r = self._expand(n.args[0])
+                if r is not None:
+                    return ast.copy_location(r, n)
+            return n
+
+        def visit_ListComp(self, n):
+            self.generic_visit(n)
+            r = self._expand(n)
+            return ast.copy_location(r, n) if r is not None else n
+
+        @staticmethod
+        def _expand(c):
+            if len(c.generators) != 1 or c.generators[0].ifs or c.generators[0].is_async:
+                return None
+            els = elements(c.generators[0].iter)
+            if els is None:
+                return None
+            out_ = []
+            for v in els:
+                m = bind(c.generators[0].target, v)
+                if m is None:
+                    return None
+                out_.append(_ExprSubst(m).visit(copy.deepcopy(c.elt)))
+            changed[0] = True
+            return ast.Tuple(elts=out_, ctx=ast.Load())
+
+    def jumps(stmts):
+        for st in stmts:
+            for x in astx.walk(st):
+                if isinstance(x, (ast.Break, ast.Continue)):
+                    # inside a nested loop it belongs to that loop
+                    inner = False
+                    for a in astx.ancestors(x):
+                        if a is st._parent if hasattr(st, '_parent') else False:
+                            break
+                        if isinstance(a, (ast.For, ast.While)) and any(a is y for y in astx.walk(st)):
+                            inner = True
+                            break
+                    if not inner:
+                        return True
+        return False
+
+    def do_block(stmts):
+        out_ = []
+        for st in stmts:
+            for fld in ('body', 'orelse', 'finalbody'):
+                sub_ = getattr(st, fld, None)
+                if isinstance(sub_, list) and sub_ and isinstance(sub_[0], ast.stmt) and \
+                        not isinstance(st, (ast.FunctionDef, ast.AsyncFunctionDef, ast.ClassDef)):
+                    setattr(st, fld, do_block(sub_))
+            if isinstance(st, ast.Try):
+                for h_ in st.handlers:
+                    h_.body = do_block(h_.body)
+            if isinstance(st, ast.For) and not st.orelse:
+                els = elements(st.iter)
+                body = st.body
+                # leading `if c: continue` guards
+                k = 0
+                while k < len(body) and isinstance(body[k], ast.If) and len(body[k].body) == 1 and \
+                        isinstance(body[k].body[0], ast.Continue) and not body[k].orelse:
+                    k += 1
+                if els is not None and k:
+                    rest = body[k:] or [ast.Pass()]
+                    for g_ in reversed(body[:k]):
+                        rest = [ast.copy_location(ast.If(test=g_.test, body=[ast.Pass()], orelse=rest), g_)]
+                    body = rest
+                if els is not None:
+                    for par in ast.walk(ast.Module(body=body, type_ignores=[])):
+                        for ch in ast.iter_child_nodes(par):
+                            ch._parent = par
+                    if not jumps(body):
+                        ok_ = True
+                        copies = []
+                        for v in els:
+                            m = bind(st.target, v)
+                            if m is None:
+                                ok_ = False
+                                break
+                            for b in body:
+                                copies.append(_ExprSubst(m).visit(copy.deepcopy(b)))
+                        if ok_:
+                            changed[0] = True
+                            out_.extend(copies)
+                            continue
+            out_.append(st)
+        return out_
+
+    clone = ast.parse(ast.unparse(fn.node)).body[0]
+    orig, new = list(astx.walk_stmts(fn.node.body)), list(astx.walk_stmts(clone.body))
+    if len(orig) == len(new):
+        for o, n_ in zip(orig, new):
+            for x in ast.walk(n_):
+                if hasattr(x, 'lineno'):
+                    x.lineno = getattr(o, 'lineno', x.lineno)
+                    x.end_lineno = getattr(o, 'end_lineno', x.lineno)
+    for par in ast.walk(clone):
+        for ch in ast.iter_child_nodes(par):
+            ch._parent = par
+    clone = Comp().visit(clone)
+    clone.body = do_block(clone.body)
+    if not changed[0]:
+        cache[id(fn.node)] = fn
+        return fn
+    clone = _FoldGetattr().visit(clone)
+    ast.fix_missing_locations(clone)
+    for x in ast.walk(clone):
+        if isinstance(x, (ast.stmt, ast.expr)) and not hasattr(x, 'lineno'):
+            x.lineno = x.end_lineno = getattr(fn.node, 'lineno', 0)
+            x.col_offset = x.end_col_offset = 0
+    for par in ast.walk(clone):
+        for ch in ast.iter_child_nodes(par):
+            ch._parent = par
+    clone._parent = getattr(fn.node, '_parent', None)
+    res = Func(fn.module, fn.qualname, clone, fn.cls)
+    cache[id(fn.node)] = res
+    return res
+
+
+def _resolved_dump(ctx, e, at, depth=0):
+    """astx.dump of e with local names replaced by the (call-free) expression they are uniquely bound to."""
+    import copy
+    if at is None or depth > 3:
+        return astx.dump(e)
+    m = {}
+    for x in astx.walk(e):
+        if isinstance(x, ast.Name) and isinstance(x.ctx, ast.Load) and x.id not in m:
+            v = ctx.rd.value(at, x.id)
+            if v is not None and astx.path(v) is not None and not any(isinstance(y, ast.Call) for y in ast.walk(v)) \
+                    and not isinstance(v, ast.Name):
+                m[x.id] = v
+    if not m:
+        return astx.dump(e)
+    return astx.dump(_ExprSubst(m).visit(copy.deepcopy(e)))
+
+
 def _check_context_manager(repo, fn, out, problem_roots):
     """PAIR clause for a @contextmanager generator: everything set before the yield is restored after it."""
+    fn = _unroll_const_loops(repo, fn)
     ctx = Ctx(repo, fn)
     g = ctx.g
     ys = [n for n in g.nodes if n.kind == 'stmt' and isinstance(n.ast, ast.Expr) and
@@ -568,7 +810,24 @@ def _check_context_manager(repo, fn, out, problem_roots):
         if not restores:
             out.bad(fn, enodes[0].ast, f'`{p}` is set before the yield and never restored', key=f'no-restore:{p}')
             continue
-        w = g.must_pass(succs, [g.exit, g.raise_exit], [n for n, _ in restores])
+        rn = [n for n, _ in restores]
+        w = g.must_pass(g.normal_succ(y), [g.exit], rn, labels=cfgm.noexc)
+        if w is None:
+            # exceptional continuation: a restore placed in a `finally` / catch-all handler of a try around the
+            # yield runs whenever the body raises (an exception inside the restore code itself is not the
+            # obligation); any other placement must be on every CFG path of the raising continuation
+            in_finally = False
+            for r in rn:
+                for t in astx.ancestors(r.ast):
+                    if isinstance(t, ast.Try) and astx.in_body(y.ast, t, 'body'):
+                        if astx.in_body(r.ast, t, 'finalbody'):
+                            in_finally = True
+                        for h in t.handlers:
+                            if any(r.ast is x for st_ in h.body for x in astx.walk(st_, True)) and \
+                                    (h.type is None or astx.path(h.type) == 'BaseException'):
+                                in_finally = True
+            if not in_finally:
+                w = g.must_pass([m for m, lab in g.succ[y] if lab == 'exc'], [g.exit, g.raise_exit], rn)
         if w is not None:
             exc = w[-1] is g.raise_exit
             out.bad(fn, enodes[0].ast, f'`{p}` is not restored when the with-body '
@@ -2028,7 +2287,7 @@ def _generator_parts(repo, fn, it):
     return parts
 
 
-def _scale_sites(g, region, repo=None, fn=None):
+def _scale_sites(g, region, repo=None, fn=None, cx=None):
     """Scaling operations in a CFG region: [(op, what-is-scaled dump, guards, args dump, anchor ast)]."""
     res, seen = [], set()
     for n in region:
@@ -2045,14 +2304,18 @@ def _scale_sites(g, region, repo=None, fn=None):
             for a in astx.ancestors(c):
                 if isinstance(a, ast.For) and isinstance(a.target, ast.Name) and isinstance(recv, ast.Name) and \
                         a.target.id == recv.id:
-                    what = 'each:' + astx.dump(a.iter)
+                    an = g.nodes_of(a)
+                    what = 'each:' + (_resolved_dump(cx, a.iter, an[0]) if cx is not None and an else astx.dump(a.iter))
                     st = a
                     break
             guards, anchor = [], st
             for a in astx.ancestors(st):
                 if isinstance(a, ast.If):
                     pos = astx.in_body(st, a, 'body')
-                    guards.append(astx.dump(a.test) + ('+' if pos else '-'))
+                    t = a.test
+                    while isinstance(t, ast.UnaryOp) and isinstance(t.op, ast.Not):
+                        t, pos = t.operand, not pos
+                    guards.append(astx.dump(t) + ('+' if pos else '-'))
                     anchor = a
                 elif isinstance(a, (ast.For, ast.While)):
                     anchor = a
@@ -2245,6 +2508,7 @@ def scale_ctx(repo, out):
         if problem:
             out.unsure(fn0, fn0.node, problem)
             continue
+        fn = _unroll_const_loops(repo, fn)
         ctx = Ctx(repo, fn)
         g = ctx.g
         ys = [n for n in g.nodes if n.kind == 'stmt' and isinstance(n.ast, ast.Expr) and
@@ -2255,7 +2519,7 @@ def scale_ctx(repo, out):
         succs = [m for m, _ in g.succ[y]]
         after = g.reach(succs)
         before = {n for n in g.nodes if n not in after and n is not y and g.path([n], [y]) is not None}
-        pre, post = _scale_sites(g, before, repo, fn), _scale_sites(g, after, repo, fn)
+        pre, post = _scale_sites(g, before, repo, fn, ctx), _scale_sites(g, after, repo, fn, ctx)
         if not pre:
             raise AnalysisError(f'{fn.ident}: no scaling operation before the yield')
         used = set()
@@ -2486,6 +2750,21 @@ _SC_FLAGH = ("    def _c31_rescale(self, to_norm):\n        if self._has_output_
              "        if self._has_resid_scaling:\n            for rv in self._vectors['residual'].values():\n"
              "                if not to_norm:\n                    rv.scale_to_phys()\n                else:\n"
              "                    rv.scale_to_norm()\n\n")
+_B4_PRE_OLD = ("    saved_rand_subjacs = problem._metadata['randomize_subjacs']\n    saved_rand_seeds = problem._metadata['randomize_seeds']\n\n"
+               "    if coloring_info is not None:\n        problem._metadata['randomize_subjacs'] = coloring_info.randomize_subjacs\n"
+               "        problem._metadata['randomize_seeds'] = coloring_info.randomize_seeds\n")
+_B4_PRE_NEW = ("    rkeys = ('randomize_subjacs', 'randomize_seeds')\n    pm = problem._metadata\n"
+               "    saved = tuple(pm[k] for k in rkeys)\n\n    if coloring_info is not None:\n"
+               "        for k in rkeys:\n            pm[k] = getattr(coloring_info, k)\n")
+_B4_POST_OLD = ("        problem._metadata['randomize_subjacs'] = saved_rand_subjacs\n"
+                "        problem._metadata['randomize_seeds'] = saved_rand_seeds\n")
+_B4_POST_NEW = "        pm = problem._metadata\n        for k, val in zip(rkeys, saved):\n            pm[k] = val\n"
+_B4_SC_PRE = ("        kinds = (('_has_output_scaling', 'output'), ('_has_resid_scaling', 'residual'))\n"
+              "        for flag, kind in kinds:\n            if getattr(self, flag):\n"
+              "                for vec in self._vectors[kind].values():\n                    vec.scale_to_norm()\n")
+_B4_SC_POST = ("            for flag, kind in kinds:\n                if not getattr(self, flag):\n                    continue\n"
+               "                kvecs = self._vectors[kind]\n                for vec in kvecs.values():\n"
+               "                    vec.scale_to_phys()\n")
 _PI_RESTORE = ("        for vec, save_array in zip(perturb_vecs, save_perturb_arrays):\n            vec.set_val(save_array)\n"
                "        for vec, save_array in zip(save_vecs, save_arrays):\n            vec.set_val(save_array)\n")
 
@@ -2717,6 +2996,19 @@ selftest(
     Mutant('ctx-update-restore-swapped', COLOR,
            "        problem._metadata['randomize_subjacs'] = saved_rand_subjacs\n        problem._metadata['randomize_seeds'] = saved_rand_seeds\n",
            "        problem._metadata.update(randomize_subjacs=saved_rand_seeds, randomize_seeds=saved_rand_subjacs)\n", 'C31.ctx'),
+    # ---- fourth robustness round: data-driven loops over literal tables
+    Twin('twin-ctx-table-driven', COLOR, _B4_PRE_OLD, _B4_PRE_NEW, also=[(COLOR, _B4_POST_OLD, _B4_POST_NEW)]),
+    Mutant('ctx-table-driven-restore-misaligned', COLOR, _B4_PRE_OLD, _B4_PRE_NEW, 'C31.ctx',
+           also=[(COLOR, _B4_POST_OLD, "        pm = problem._metadata\n        for k, val in zip(('randomize_seeds', 'randomize_subjacs'), saved):\n"
+                                       "            pm[k] = val\n")]),
+    Mutant('ctx-table-driven-restore-partial', COLOR, _B4_PRE_OLD, _B4_PRE_NEW, 'C31.ctx',
+           also=[(COLOR, _B4_POST_OLD, "        pm = problem._metadata\n        for k, val in zip(('randomize_subjacs',), saved):\n"
+                                       "            pm[k] = val\n")]),
+    Twin('twin-sc-table-driven', SYS, _SC_PRE, _B4_SC_PRE, also=[(SYS, _SC_POST, _B4_SC_POST)]),
+    Mutant('sc-table-driven-wrong-kind', SYS, _SC_PRE, _B4_SC_PRE, 'C31.scale_ctx',
+           also=[(SYS, _SC_POST, _B4_SC_POST.replace("kvecs = self._vectors[kind]", "kvecs = self._vectors['output']"))]),
+    Mutant('sc-table-driven-inverted-skip', SYS, _SC_PRE, _B4_SC_PRE, 'C31.scale_ctx',
+           also=[(SYS, _SC_POST, _B4_SC_POST.replace("if not getattr(self, flag):", "if getattr(self, flag):"))]),
     # ---- twins
     Twin('twin-zero-vecs-alias', TJ, "        self.model._doutputs.set_val(0.0)\n        self.model._dresiduals.set_val(0.0)\n",
          "        mdl = self.model\n        mdl._doutputs.set_val(0.0)\n        dres = mdl._dresiduals\n        dres.set_val(0.0)\n"),
